@@ -28,6 +28,7 @@ pub struct LoopSpec {
     pub set: bool,
     pub binder: Option<String>,
     pub text: String,
+    pub body: String,
 }
 #[derive(Clone, Default, Debug)]
 pub struct Anchor {
@@ -183,6 +184,7 @@ enum Sect {
     Contract,
     Pre,
     Loop(usize),
+    LoopBody(usize),
     Anchor(usize),
     Select(usize),
 }
@@ -227,6 +229,10 @@ pub fn parse_spec(text: &str, prelude_dir: &str) -> Result<Unit, String> {
                 (Some(f), Sect::Loop(i)) => {
                     f.loops[*i].text.push_str(l);
                     f.loops[*i].text.push('\n');
+                }
+                (Some(f), Sect::LoopBody(i)) => {
+                    f.loops[*i].body.push_str(l);
+                    f.loops[*i].body.push('\n');
                 }
                 (Some(f), Sect::Anchor(i)) => {
                     f.anchors[*i].text.push_str(l);
@@ -315,8 +321,14 @@ pub fn parse_spec(text: &str, prelude_dir: &str) -> Result<Unit, String> {
                     "pre" => sect = Sect::Pre,
                     "loop" => {
                         let index: usize = ws.get(1).and_then(|s| s.parse().ok()).ok_or_else(|| err("loop index"))?;
-                        f.loops.push(LoopSpec { index, set: flag(&ws, "set"), binder: kv(&ws, "binder").map(|s| s.to_string()), text: String::new() });
+                        f.loops.push(LoopSpec { index, set: flag(&ws, "set"), binder: kv(&ws, "binder").map(|s| s.to_string()), text: String::new(), body: String::new() });
                         sect = Sect::Loop(f.loops.len() - 1);
+                    }
+                    "loopbody" => {
+                        if f.loops.is_empty() {
+                            return Err(err("//@loopbody without //@loop"));
+                        }
+                        sect = Sect::LoopBody(f.loops.len() - 1);
                     }
                     "before" | "after" => {
                         let occurrence: usize = ws.get(1).and_then(|s| s.parse().ok()).ok_or_else(|| err("occurrence index"))?;
